@@ -241,10 +241,25 @@ func TestDelaunayLarge(t *testing.T) {
 			rec.Violation(t, f.key, "%s; sorted points %v", f.msg, vs)
 			return
 		}
-		if !equalCanon(canon(fast), canon(refLike(vs, gm.ref, fast))) {
+		// (as sets of unordered triples: see the winding note in checkTriangulation)
+		if !equalCanon(canon(ccw(vs, fast)), canon(ccw(vs, gm.ref))) {
 			t.Fatalf("harness inconsistency: Delaunay2d passed the exact oracle but differs from the harness' reference triangulation; points %v", vs)
 		}
+		rec.Add("large:triangulations-with-mixed-windings", int64(MixedWindings))
+		MixedWindings = 0
 	})
+}
+
+// ccw returns the triples in counter-clockwise order.
+func ccw(p []v2.Vec, ts [][3]int) [][3]int {
+	out := make([][3]int, len(ts))
+	for i, t := range ts {
+		if orient(p[t[0]], p[t[1]], p[t[2]]) < 0 {
+			t = [3]int{t[0], t[2], t[1]}
+		}
+		out[i] = t
+	}
+	return out
 }
 
 // ---------------------------------------------------------------------------
